@@ -112,6 +112,32 @@ static const char *verName(HttpVer v) {
     }
 }
 
+static std::string showPath(const Url::Path &u) {
+    return "path=" + vh::hex(u.path) + " params=" + showKVs(u.params) + " query=" + showKVs(u.query) + " frag=" + vh::hex(u.frag);
+}
+static std::string showHost(const Url::Host &h) {
+    return "user=" + vh::hex(h.user) + " pw=" + vh::hex(h.password) + " host=" + vh::hex(h.host) + " port=" + std::to_string((unsigned)h.port);
+}
+static bool samePath(const Url::Path &a, const Url::Path &b) {
+    return a.path == b.path && a.params == b.params && a.query == b.query && a.frag == b.frag;
+}
+static bool sameHost(const Url::Host &a, const Url::Host &b) {
+    return a.user == b.user && a.password == b.password && a.host == b.host && a.port == b.port;
+}
+static std::string str(const std::vector<uint8_t> &d) { return std::string(d.begin(), d.end()); }
+static bool methodByName(const std::string &n, Method &m) {
+    static const char *names[] = {"kUnset", "kGet", "kHead", "kPut", "kPost", "kTrace", "kOptions", "kDelete"};
+    static const Method vals[] = {Method::kUnset, Method::kGet, Method::kHead, Method::kPut, Method::kPost, Method::kTrace, Method::kOptions, Method::kDelete};
+    for (int i = 0; i < 8; ++i) if (n == names[i]) { m = vals[i]; return true; }
+    return false;
+}
+static bool verByName(const std::string &n, HttpVer &v) {
+    static const char *names[] = {"kUnset", "k1_0", "k1_1", "k2_0"};
+    static const HttpVer vals[] = {HttpVer::kUnset, HttpVer::k1_0, HttpVer::k1_1, HttpVer::k2_0};
+    for (int i = 0; i < 4; ++i) if (n == names[i]) { v = vals[i]; return true; }
+    return false;
+}
+
 // ---------------------------------------------------------------- parser level
 struct PConn {
     RequestParser parser;
@@ -320,13 +346,83 @@ int main() {
         if (w.empty()) continue;
         if (w[0] == "case") { reset(); std::cout << line << "\n"; continue; }
         const std::string &op = w[0];
-        std::vector<uint8_t> d; uint64_t n = 0, n2 = 0, n3 = 0; std::map<std::string, std::string> kvs;
+        std::vector<uint8_t> d, d2, d3, d4, d5, d6; uint64_t n = 0, n2 = 0, n3 = 0; std::map<std::string, std::string> kvs, kvs2, kvs3;
+        Method me = Method::kUnset; HttpVer ve = HttpVer::kUnset;
         bool ok = true; Srv::Script sc;
         try {
             if (op == "method" && w.size() == 2 && vh::unhex(w[1], d)) {
                 std::cout << "P method " << methodName(StringToMethod(std::string(d.begin(), d.end()))) << "\n";
             } else if (op == "version" && w.size() == 2 && vh::unhex(w[1], d)) {
                 std::cout << "P version " << verName(StringToHttpVer(std::string(d.begin(), d.end()))) << "\n";
+            } else if (op == "upath" && w.size() == 2 && vh::unhex(w[1], d)) {
+                Url::Path u;
+                std::string in = str(d);
+                std::unique_ptr<char[]> exact(new char[in.size() + 1]);   // exact-size copy: an over-read is visible to ASan
+                memcpy(exact.get(), in.data(), in.size());
+                if (!StringToUrlPath(std::string(exact.get(), in.size()), u)) std::cout << "P upath 0\n";
+                else std::cout << "P upath 1 " << showPath(u) << " str=" << vh::hex(UrlPathToString(u)) << " rt=" << urlRoundTrip(u) << "\n";
+            } else if (op == "uhost" && w.size() == 2 && vh::unhex(w[1], d)) {
+                Url::Host h;
+                if (!StringToUrlHost(str(d), h)) std::cout << "P uhost 0\n";
+                else std::cout << "P uhost 1 " << showHost(h) << " str=" << vh::hex(UrlHostToString(h)) << "\n";
+            } else if (op == "url" && w.size() == 2 && vh::unhex(w[1], d)) {
+                Url u;
+                if (!StringToUrl(str(d), u)) std::cout << "P url 0\n";
+                else {
+                    Url v; std::string s2 = UrlToString(u);
+                    bool rt = StringToUrl(s2, v) && v.scheme == u.scheme && sameHost(v.host, u.host) && samePath(v.path, u.path);
+                    std::cout << "P url 1 scheme=" << vh::hex(u.scheme) << " " << showHost(u.host) << " " << showPath(u.path)
+                              << " str=" << vh::hex(s2) << " rt=" << (rt ? "1" : "0") << "\n";
+                }
+            } else if (op == "mkpath" && w.size() == 5 && vh::unhex(w[1], d) && parseKVs(w[2], kvs) && parseKVs(w[3], kvs2) && vh::unhex(w[4], d2)) {
+                Url::Path u; u.path = str(d); u.params = kvs; u.query = kvs2; u.frag = str(d2);
+                std::string s2 = UrlPathToString(u);
+                Url::Path v;
+                std::cout << "P mkpath str=" << vh::hex(s2) << " back=";
+                if (!StringToUrlPath(s2, v)) std::cout << "0\n";
+                else std::cout << "1 " << showPath(v) << " rt=" << (samePath(u, v) ? "1" : "0") << "\n";
+            } else if (op == "mkurl" && w.size() == 10 && vh::unhex(w[1], d) && vh::unhex(w[2], d2) && vh::unhex(w[3], d3) && vh::unhex(w[4], d4) &&
+                       vh::to_u64(w[5], n) && n <= 65535 && vh::unhex(w[6], d5) && parseKVs(w[7], kvs) && parseKVs(w[8], kvs2) && vh::unhex(w[9], d6)) {
+                Url u; u.scheme = str(d); u.host.user = str(d2); u.host.password = str(d3); u.host.host = str(d4); u.host.port = (uint16_t)n;
+                u.path.path = str(d5); u.path.params = kvs; u.path.query = kvs2; u.path.frag = str(d6);
+                std::string s2 = UrlToString(u);
+                Url v;
+                std::cout << "P mkurl str=" << vh::hex(s2) << " back=";
+                bool okk = false;
+                try { okk = StringToUrl(s2, v); } catch (const std::exception &) { std::cout << "exception\n"; continue; }
+                if (!okk) std::cout << "0\n";
+                else std::cout << "1 scheme=" << vh::hex(v.scheme) << " " << showHost(v.host) << " " << showPath(v.path) << " rt="
+                               << ((v.scheme == u.scheme && sameHost(v.host, u.host) && samePath(v.path, u.path)) ? "1" : "0") << "\n";
+            } else if (op == "enc" && w.size() == 3 && (w[1] == "0" || w[1] == "1") && vh::unhex(w[2], d)) {
+                std::cout << "P enc " << vh::hex(UrlEncode(str(d), w[1] == "1")) << "\n";
+            } else if (op == "dec" && w.size() == 2 && vh::unhex(w[1], d)) {
+                std::string out; bool threw = false;
+                try { out = UrlDecode(str(d)); } catch (const std::out_of_range &) { threw = true; }   // the documented failure
+                if (threw) std::cout << "P dec throws\n"; else std::cout << "P dec " << vh::hex(out) << "\n";
+            } else if (op == "mkreq" && w.size() == 9 && methodByName(w[1], me) && vh::unhex(w[2], d) && parseKVs(w[3], kvs) && parseKVs(w[4], kvs2) &&
+                       vh::unhex(w[5], d2) && verByName(w[6], ve) && parseKVs(w[7], kvs3) && vh::unhex(w[8], d3)) {
+                Request r; r.method = me; r.http_ver = ve; r.url.path = str(d); r.url.params = kvs; r.url.query = kvs2; r.url.frag = str(d2);
+                r.headers = kvs3; r.body = str(d3);
+                std::string s2 = r.toString();
+                std::cout << "P mkreq str=" << vh::hex(s2) << "\n";
+                RequestParser rp;
+                std::unique_ptr<char[]> exact(new char[s2.size() + 1]);
+                memcpy(exact.get(), s2.data(), s2.size());
+                size_t used = rp.parse(exact.get(), s2.size());
+                std::cout << "P reparse consumed=" << used << " st=" << showState(rp.state());
+                if (rp.state() == RequestParser::State::kFinishedAll) {
+                    std::unique_ptr<Request> q(rp.getRequest());
+                    Headers want = r.headers; want["Content-Length"] = std::to_string(r.body.size());
+                    bool same = q->method == r.method && q->http_ver == r.http_ver && samePath(q->url, r.url) && q->headers == want && q->body == r.body;
+                    std::cout << " " << showReq(*q) << " same=" << (same ? "1" : "0");
+                }
+                std::cout << "\n";
+            } else if (op == "mkres" && w.size() == 5 && verByName(w[1], ve) && vh::to_u64(w[2], n) && n <= 999 && parseKVs(w[3], kvs) && vh::unhex(w[4], d)) {
+                Respond r; r.http_ver = ve; r.status_code = (StatusCode)(int)n; r.headers = kvs; r.body = str(d);
+                std::cout << "P mkres " << vh::hex(r.toString()) << "\n";
+            } else if ((op == "sstop" || op == "sclean") && w.size() == 1 && sv && !sv->poisoned) {
+                if (op == "sstop") sv->srv->stop(); else sv->srv->cleanup();   // outside any handler; contexts may still be held
+                sv->settle();
             } else if (op == "feed" && w.size() == 2 && vh::unhex(w[1], d) && !sv) {
                 if (!pc) pc.reset(new PConn);
                 doFeed(*pc, d);
@@ -335,7 +431,7 @@ int main() {
                 if (!sv->start()) { std::cout << "P srv-start-failed\n"; }
                 else std::cout << "P srv\n";
             } else if (sv && sv->poisoned && (op == "seg" || op == "done" || op == "doneN" || op == "doneR" || op == "rel" ||
-                       op == "cclose" || op == "dclose" || op == "dcloseN" || op == "cdone" || op == "chalf" || op == "chalfS" || op == "wfail")) {
+                       op == "cclose" || op == "dclose" || op == "dcloseN" || op == "cdone" || op == "chalf" || op == "chalfS" || op == "wfail" || op == "sstop" || op == "sclean")) {
                 std::cout << "P poisoned\n";
             } else if (op == "sync" && w.size() == 3 && vh::to_u64(w[1], n) && vh::unhex(w[2], d) && sv && !sv->scripts.count((int)n)) {
                 Srv::Script sc(Srv::kLevels);
